@@ -115,7 +115,9 @@ impl<'t> Gen<'t> {
 
     fn function(&mut self, outer: &Scope) {
         let name = self.new_var(VarKind::Func);
-        let nparams = 1 + self.t.draw(2) as usize;
+        // mostly one or two parameters; sometimes more than the interpreter's
+        // inline argument capacity (8)
+        let nparams = [1usize, 2, 1, 2, 3, 5, 9, 11][self.t.weighted(&[6, 6, 0, 0, 2, 1, 1, 1])];
         let params: Vec<VarId> = (0..nparams).map(|_| self.new_var(VarKind::Param)).collect();
         let nlocals = 1 + self.t.draw(2) as usize;
         let locals: Vec<VarId> = (0..nlocals).map(|_| self.new_var(VarKind::Str)).collect();
